@@ -158,6 +158,85 @@ def windows(rng, b, count, size):
     return (keep + rest)[:max(count, 3)]
 
 
+
+# ---------------------------------------------------------------------------------------
+# array LAYOUT variants: the same logical (frames x channels) block / the same logical flat sample list,
+# held in memory in different ways.  Every variant must behave exactly like the C-contiguous float64 one.
+
+
+def layout_variants(block):
+    """block: C-contiguous float64 (frames x channels). Yields (name, object) with identical logical content."""
+    block = np.ascontiguousarray(block, dtype=np.float64)
+    nf, ch = block.shape
+    yield "c-contiguous", block.copy()
+    yield "fortran-ordered", np.asfortranarray(block)
+    yield "transposed-view-of-channels-x-frames", np.ascontiguousarray(block.T).T
+    yield "stack-per-channel-T", (np.stack([block[:, c].copy() for c in range(ch)]).T if ch else block.copy())
+    wide = np.full((2 * nf + 1, ch), 7.25)
+    wide[1::2] = block
+    yield "every-other-frame-of-longer-array", wide[1::2]
+    widec = np.full((nf, 2 * ch + 3), -7.25)
+    widec[:, 2:2 + ch] = block
+    yield "column-subset-of-wider-array", widec[:, 2:2 + ch]
+    widec2 = np.full((nf, 2 * ch + 1), 3.5)
+    widec2[:, 1::2] = block
+    yield "every-other-column-of-wider-array", widec2[:, 1::2]
+    widef = np.asfortranarray(np.full((nf + 2, ch + 2), 1.75))
+    widef[1:1 + nf, 1:1 + ch] = block
+    yield "interior-of-fortran-array", widef[1:1 + nf, 1:1 + ch]
+    yield "negative-frame-stride", block[::-1].copy()[::-1]
+    yield "negative-channel-stride", block[:, ::-1].copy()[:, ::-1]
+    yield "negative-both-strides", block[::-1, ::-1].copy()[::-1, ::-1]
+    ro = block.copy()
+    ro.flags.writeable = False
+    yield "read-only", ro
+    rof = np.asfortranarray(block)
+    rof.flags.writeable = False
+    yield "read-only-fortran", rof
+    yield "nested-lists", block.tolist()
+    if ch >= 2:
+        # float32 holds the values exactly when they are float32 numbers to begin with (callers pass such blocks
+        # for this variant, see `f32_exact`); with >= 2 channels interleave() produces float64 from it
+        if np.array_equal(block.astype(np.float32).astype(np.float64), block):
+            yield "float32", block.astype(np.float32)
+            yield "float32-fortran", np.asfortranarray(block.astype(np.float32))
+
+
+def flat_variants(flat):
+    flat = np.ascontiguousarray(flat, dtype=np.float64)
+    n = len(flat)
+    yield "c-contiguous", flat.copy()
+    w = np.full(2 * n + 1, 9.5)
+    w[1::2] = flat
+    yield "every-other-element", w[1::2]
+    yield "negative-stride", flat[::-1].copy()[::-1]
+    m = np.asfortranarray(np.full((3, n), 2.5))
+    m[1] = flat
+    yield "row-of-fortran-matrix", m[1]
+    ro = flat.copy()
+    ro.flags.writeable = False
+    yield "read-only", ro
+    yield "list", flat.tolist()
+    if np.array_equal(flat.astype(np.float32).astype(np.float64), flat):
+        yield "float32", flat.astype(np.float32)
+
+
+def snapshot(obj):
+    """What a caller could observe of its own argument: value, dtype, strides, the whole underlying buffer."""
+    if isinstance(obj, list):
+        return repr(obj)
+    base = obj
+    while isinstance(base.base, np.ndarray):
+        base = base.base
+    return (obj.dtype.str, obj.shape, obj.strides, obj.tobytes(), base.tobytes(order="A"), obj.flags.writeable)
+
+
+def layout_desc(obj):
+    if isinstance(obj, list):
+        return "list"
+    return "dtype=%s shape=%s strides=%s C=%s F=%s writeable=%s" % (
+        obj.dtype, obj.shape, obj.strides, obj.flags.c_contiguous, obj.flags.f_contiguous, obj.flags.writeable)
+
 # ---------------------------------------------------------------------------------------
 
 
@@ -399,25 +478,33 @@ class C16(Spec):
             nf = rng.choice([0, 1, 2, 3, rng.randint(0, 12)])
             vals = [rng.randint(-99, 99) for _ in range(nf * ch)]
             a = np.array(vals, dtype=np.float64).reshape(nf, ch)
-            try:
-                r = np.asarray(u.interleave(a))
-                out = (" ".join(str(int(v)) for v in r) if r.size else "-") if r.ndim == 1 else "shape %s" % (r.shape,)
-            except Exception as e:
-                out = "exception:" + type(e).__name__
-            lines.append("I %d %d %s" % (ch, nf, " ".join(map(str, vals)))); expect.append(out); metas.append(("I", ch, vals))
+            # the model has no notion of memory layout: every layout of the same logical block is compared with
+            # the same model answer (small integers are exact in float32 too)
+            for lname, av in (layout_variants(a) if nf else [("c-contiguous", a)]):
+                try:
+                    r = np.asarray(u.interleave(av))
+                    out = (" ".join(str(int(v)) for v in r) if r.size else "-") if r.ndim == 1 else "shape %s" % (r.shape,)
+                except Exception as e:
+                    out = "exception:" + type(e).__name__
+                lines.append("I %d %d %s" % (ch, nf, " ".join(map(str, vals)))); expect.append(out)
+                metas.append(("I layout=%s (%s)" % (lname, layout_desc(av)), ch, vals))
+                ctx.count("corr:interleave:layout:%s" % lname)
             ln = rng.choice([nf * ch, nf * ch, rng.randint(0, 30)])
             flat = [rng.randint(-99, 99) for _ in range(ln)]
-            try:
-                d = np.asarray(u.deinterleave(np.array(flat, dtype=np.float64), ch))
-                if d.ndim != 2 or (d.size and d.shape[1] != ch):
-                    out = "shape %s" % (d.shape,)
-                else:
-                    out = " | ".join(" ".join(str(int(v)) for v in row) for row in d) if d.shape[0] else "-"
-            except ValueError:
-                out = "none"
-            except Exception as e:
-                out = "exception:" + type(e).__name__
-            lines.append("X %d %s" % (ch, " ".join(map(str, flat)))); expect.append(out); metas.append(("X", ch, flat))
+            for lname, fv in flat_variants(np.array(flat, dtype=np.float64)):
+                try:
+                    d = np.asarray(u.deinterleave(fv, ch))
+                    if d.ndim != 2 or (d.size and d.shape[1] != ch):
+                        out = "shape %s" % (d.shape,)
+                    else:
+                        out = " | ".join(" ".join(str(int(v)) for v in row) for row in d) if d.shape[0] else "-"
+                except ValueError:
+                    out = "none"
+                except Exception as e:
+                    out = "exception:" + type(e).__name__
+                lines.append("X %d %s" % (ch, " ".join(map(str, flat)))); expect.append(out)
+                metas.append(("X layout=%s" % lname, ch, flat))
+                ctx.count("corr:deinterleave:layout:%s" % lname)
             ctx.count("corr:interleave:channels=%d" % ch)
             ctx.count("corr:deinterleave:%s" % ("whole-frames" if ln % ch == 0 else "partial-frame"))
         outs = drv.run(lines)
@@ -545,7 +632,8 @@ class C16(Spec):
 
     def _interleaving(self, ctx, deep):
         """Multi-channel: bytes -> decode -> deinterleave -> interleave -> encode -> canonical bytes, and
-        deinterleave/interleave are mutually inverse rearrangements."""
+        deinterleave/interleave are mutually inverse rearrangements -- for every memory LAYOUT of the same logical
+        (frames x channels) block and of the same flat sample list; the arguments are left untouched."""
         u = real()
         rng = ctx.rng
         for t in range(600 if deep else 150):
@@ -579,6 +667,73 @@ class C16(Spec):
                 ctx.hit("multi-channel copy alters the audio", {"bitdepth": b, "channels": ch, "codes": codes, "bytes": raw.hex()},
                         {"shape_ok": bool(ok_shape), "placement_ok": bool(ok_place), "interleave_inverse_ok": bool(ok_inv),
                          "bytes_out": out.hex(), "expected": want.hex()}, ["interleave"])
+                continue
+            if nf == 0:
+                continue
+            # the same logical block in every layout: what is written must not depend on how the caller holds it
+            block = np.asarray(dec, dtype=np.float64).reshape(nf, ch)      # logical content, from the decoder alone
+            self._layouts_block(ctx, u, b, ch, codes, block, want, "decoded-block")
+            # the same logical flat list in every layout through deinterleave
+            for name, fv in flat_variants(np.asarray(dec, dtype=np.float64)):
+                ctx.count("search:layout:deinterleave:%s" % name)
+                before = snapshot(fv)
+                try:
+                    d = np.asarray(u.deinterleave(fv, ch))
+                    ok = d.shape == (nf, ch) and np.array_equal(d.astype(np.float64), block)
+                    err = None
+                except Exception as e:
+                    ok, err = False, repr(e)
+                if not ok or snapshot(fv) != before:
+                    ctx.hit("deinterleave depends on the memory layout of its argument / modifies it",
+                            {"bitdepth": b, "channels": ch, "codes": codes, "layout": name, "layout_detail": layout_desc(fv)},
+                            {"exception": err, "argument_unmodified": snapshot(fv) == before}, ["interleave", "layout"])
+                    break
+        # float32-exact blocks (values k / 2^m), all layouts incl. float32, through interleave + encode
+        for t in range(120 if deep else 30):
+            b = rng.choice(DEPTHS)
+            ch = rng.randint(1, 8) if t >= 8 else t % 4 + 1
+            nf = rng.randint(1, 12) if t >= 8 else t // 4 + 1
+            vals = np.array([rng.choice([1.0, -1.0, 0.0, 1.5, -2.0, rng.randint(-2 ** 12, 2 ** 12) / 2.0 ** 12])
+                             for _ in range(nf * ch)], dtype=np.float64).reshape(nf, ch)
+            if t < 8:
+                vals = (np.arange(1, nf * ch + 1, dtype=np.float64) / 64.0).reshape(nf, ch)
+            try:
+                want = bytes(u.encode_pcm_samples(vals.reshape(-1).copy(), b))   # encode alone, no interleave involved
+            except Exception as e:
+                ctx.hit("exception encoding float samples", {"bitdepth": b, "samples": vals.tolist()}, {"exception": repr(e)}, ["interleave"])
+                continue
+            self._layouts_block(ctx, u, b, ch, None, vals, want, "float32-exact-block")
+
+    def _layouts_block(self, ctx, u, b, ch, codes, block, want, kind):
+        """interleave + encode of every layout variant of `block` must give `want`, and interleave must give the
+        row-major flattening of the logical block; arguments must come back unmodified."""
+        logical = np.ascontiguousarray(block, dtype=np.float64).reshape(-1)
+        for name, v in layout_variants(block):
+            ctx.count("search:layout:interleave:%s" % name)
+            ctx.case(("layout", kind, b, ch, name, logical.tobytes()), True)
+            before = snapshot(v)
+            inp = {"bitdepth": b, "channels": ch, "frames": int(block.shape[0]), "layout": name,
+                   "layout_detail": layout_desc(v), "block_rows": np.asarray(block).tolist()}
+            if codes is not None:
+                inp["codes_row_major"] = codes
+            try:
+                flat = u.interleave(v)
+                f64 = np.asarray(flat, dtype=np.float64)
+                ok_flat = f64.shape == logical.shape and np.array_equal(f64, logical)
+                unmod1 = snapshot(v) == before
+                fb = snapshot(flat) if isinstance(flat, np.ndarray) else None
+                out = bytes(u.encode_pcm_samples(flat, b))
+                unmod2 = fb is None or snapshot(flat) == fb
+            except Exception as e:
+                ctx.hit("exception on a well-formed block in this memory layout", inp, {"exception": repr(e)}, ["interleave", "layout"])
+                return
+            if not (ok_flat and out == want and unmod1 and unmod2 and snapshot(v) == before):
+                ctx.hit("written samples depend on the memory layout of the block (or an argument was modified)", inp,
+                        {"interleave_is_row_major_flattening": bool(ok_flat), "interleaved": f64.tolist()[:64],
+                         "expected_interleaved": logical.tolist()[:64], "bytes_out": out.hex()[:256], "expected_bytes": want.hex()[:256],
+                         "interleave_left_argument_unmodified": bool(unmod1), "encode_left_argument_unmodified": bool(unmod2)},
+                        ["interleave", "layout"])
+                return
 
     def search(self, ctx, deep):
         # 16 and 24 bit: every code, in every tier
